@@ -17,7 +17,12 @@ func usage() {
 	os.Exit(2)
 }
 
-func main() {
+func main() { os.Exit(realMain(os.Args)) }
+
+// realMain is also the body of the test binary (see main_test.go): the harness
+// is built with `go test -c` so that runs can enter testing/synctest bubbles.
+func realMain(argv []string) int {
+	os.Args = argv
 	if len(os.Args) < 2 {
 		usage()
 	}
@@ -39,9 +44,9 @@ func main() {
 		p := sim.Registry[os.Args[2]]
 		if p == nil {
 			fmt.Fprintf(os.Stderr, "unknown property %s\n", os.Args[2])
-			os.Exit(2)
+			return 2
 		}
-		os.Exit(sim.BatchMain(self, verifDir, p, os.Args[3]))
+		return sim.BatchMain(self, verifDir, p, os.Args[3])
 	case "replay":
 		if len(os.Args) < 3 {
 			usage()
@@ -50,11 +55,11 @@ func main() {
 		if !filepath.IsAbs(path) {
 			path, _ = filepath.Abs(path)
 		}
-		os.Exit(sim.ReplayMain(path))
+		return sim.ReplayMain(path)
 	case "dettest":
 		p := sim.Registry[os.Args[2]]
 		n, _ := strconv.Atoi(os.Args[4])
-		os.Exit(sim.DetTest(self, p, os.Args[3], n))
+		return sim.DetTest(self, p, os.Args[3], n)
 	case "one":
 		// one <prop> <tier> <seed> <idx>: execute a single run and print its event log
 		p := sim.Registry[os.Args[2]]
@@ -63,7 +68,7 @@ func main() {
 		env, closer, err := p.NewEnv(os.Args[3])
 		if err != nil {
 			fmt.Fprintln(os.Stderr, err)
-			os.Exit(2)
+			return 2
 		}
 		res, c := sim.Execute(p.ID, os.Args[3], idx, sim.NewSrc(sim.Mix(seed, p.ID, idx)), env, nil, p.Fn, 100000)
 		closer()
@@ -87,11 +92,12 @@ func main() {
 				only = append(only, n)
 			}
 		}
-		os.Exit(sim.WorkerMain(p, os.Args[3], seed, shard, nshards, only))
+		return sim.WorkerMain(p, os.Args[3], seed, shard, nshards, only)
 	default:
 		if fn, ok := sim.Extra[os.Args[1]]; ok {
-			os.Exit(fn(os.Args[2:]))
+			return fn(os.Args[2:])
 		}
 		usage()
 	}
+	return 0
 }
